@@ -34,6 +34,13 @@ class VTimeout(Value):
         self.delay = delay
 
 
+class VTypeVal(Value):
+    """a type object: either a named builtin type or type(<value>)"""
+
+    def __init__(self, name=None, of=None):
+        self.name, self.of = name, of
+
+
 class VAnyOf(Value):
     """env.any_of([...]) condition event"""
 
@@ -255,6 +262,8 @@ class Exec:
             return [(v, st)]
         if n in ("True", "False"):
             return [(VBool(n == "True"), st)]
+        if n in ("int", "float", "str", "bool") and n not in self.ctx.local_names:
+            return [(VTypeVal(name=n), st)]
         if n in self.ctx.contracts.globals:
             return [(self.ctx.contracts.globals[n], st)]
         if n in self.ctx.local_names:
@@ -488,6 +497,20 @@ class Exec:
         return [(VFunc("<lambda>", node), st)]
 
     def e_IfExp(self, node, st):
+        # pure, total operands: a conditional value without forking
+        try:
+            vals = []
+            for sub in (node.test, node.body, node.orelse):
+                npc, nh = len(st.pc), len(st.hyps)
+                rs = self.eval(sub, st.fork())
+                if len(rs) != 1 or isinstance(rs[0][0], Exc) or len(rs[0][1].pc) != npc or len(rs[0][1].hyps) != nh:
+                    vals = None
+                    break
+                vals.append(self.deref(rs[0][0], st))
+            if vals is not None:
+                return [(V.ite(V.truth(vals[0]), vals[1], vals[2]), st)]
+        except Unsupported:
+            pass
         outs = []
         for c, s in self.eval(node.test, st):
             if isinstance(c, Exc):
@@ -697,6 +720,24 @@ class Exec:
         return Num(x.num)
 
     def eq(self, a, b):
+        if isinstance(a, VTypeVal) and isinstance(b, VTypeVal):
+            if a.of is None and b.of is None:
+                return z3.BoolVal(a.name == b.name)
+            if a.of is None:
+                a, b = b, a
+            if b.of is not None:
+                raise Unsupported("type(x) == type(y)")
+            v, n = a.of, b.name
+            code = {"int": V.T_INT, "float": V.T_FLOAT, "str": V.T_STR, "bool": V.T_BOOL}[n]
+            if isinstance(v, VDyn):
+                return v.tag == code
+            if isinstance(v, Num):
+                return z3.BoolVal((n == "int") == v.is_int and n in ("int", "float"))
+            if isinstance(v, VStr):
+                return z3.BoolVal(n == "str")
+            if isinstance(v, VBool):
+                return z3.BoolVal(n == "bool")
+            return z3.BoolVal(False)
         if isinstance(a, (VOpaque,)) or isinstance(b, (VOpaque,)):
             raise Unsupported("equality on opaque value")
         if isinstance(a, SList) or isinstance(b, SList):
@@ -908,7 +949,7 @@ class Exec:
         if name == "next" and len(args) == 1 and isinstance(args[0], VDyn):
             return self.ctx.contracts.consult(self, args[0], "next", st, node)
         if name == "type" and len(args) == 1:
-            return [(VOpaque("type"), st)]
+            return [(VTypeVal(of=self.deref(args[0], st)), st)]
         if name == "float" and len(args) == 1 and isinstance(args[0], VStr):
             if z3.is_int_value(args[0].t) and V.str_of_code(args[0].t.as_long()) == "inf":
                 return [(Num(z3.RealVal(0), inf=z3.BoolVal(True)), st)]
